@@ -72,6 +72,14 @@ def authenticateWith (k : AuthKind) (e : AuthEnv) (claimed : String) (peer : Pee
   | .tls => authenticate e claimed peer i
   | .dummy => dummyAuthenticate claimed peer
 
+/-- `grpcConnectionManager.authenticate` (inbound and outbound stream set-up): no claimed DID = no authentication;
+    a failed authentication is an error and yields the zero peer (the stream is refused), never a half-authenticated one -/
+def cmAuthenticate (k : AuthKind) (e : AuthEnv) (claimed : String) (peer : Peer) (i : AuthIn) : Peer × Bool :=
+  if claimed == "" then (peer, false)
+  else
+    let r := authenticateWith k e claimed peer i
+    if r.2 == "ok" then (r.1, false) else ({ key := 0 }, true)
+
 /-- `PAL.Encrypt`: the plaintext is the whole participant list; one ciphertext per participant under that
     participant's key agreement key. `cipherFor d` names the ciphertext made for participant `d`. -/
 def encryptPAL (cipherFor : String → Nat) (pal : List String) : List Nat := pal.map cipherFor
